@@ -347,6 +347,14 @@ func cmdCheck(args []string) {
 			}
 		}
 		sort.Strings(names)
+		// an obligation that discharges now is claimed, whatever an older list said
+		kept := cfg.NotClaimed[:0]
+		for _, nc := range cfg.NotClaimed {
+			if !seen[nc.Obligation] {
+				kept = append(kept, nc)
+			}
+		}
+		cfg.NotClaimed = kept
 		have := map[string]bool{}
 		for _, nc := range cfg.NotClaimed {
 			have[nc.Obligation] = true
